@@ -235,7 +235,22 @@ impl std::str::FromStr for IPAddr {
 
 impl std::fmt::Display for IPAddr {
     fn fmt(&self, f: &mut std::fmt::Formatter<'_>) -> std::fmt::Result {
-        write!(f, "{}/{}", self.addr, self.prefix)
+        match self.addr {
+            // `std` prints IPv4-mapped and IPv4-compatible IPv6 addresses with
+            // an embedded dotted quad (e.g., `::ffff:10.0.0.1`). The `ip`
+            // constructor does not accept that notation, and this output is
+            // also the argument of the canonical representation, so print
+            // those addresses as plain hexadecimal groups instead.
+            std::net::IpAddr::V6(addr) if addr.to_string().contains('.') => {
+                let [a, b, c, d, e, g, h, i] = addr.segments();
+                write!(
+                    f,
+                    "{a:x}:{b:x}:{c:x}:{d:x}:{e:x}:{g:x}:{h:x}:{i:x}/{}",
+                    self.prefix
+                )
+            }
+            addr => write!(f, "{}/{}", addr, self.prefix),
+        }
     }
 }
 
